@@ -15,6 +15,7 @@ import (
 	"verifharness/internal/dh"
 	"verifharness/internal/ep"
 	"verifharness/internal/ev"
+	"verifharness/internal/h"
 )
 
 type lineT struct {
@@ -87,6 +88,8 @@ func TestPropHealthyConn(t *testing.T) {
 		connbuf := rapid.SampledFrom([]int{0, 1, 2, 8, 64, 1000}).Draw(t, "connbuf")
 		flush := time.Duration(rapid.SampledFrom([]int{1, 2, 5, 20, 50}).Draw(t, "flushMs")) * time.Millisecond
 		pickle := rapid.IntRange(0, 2).Draw(t, "pickle") == 0
+		lvl, restore := h.DrawLogLevel(t)
+		defer restore()
 		e := ep.New()
 		defer e.Close()
 		x := dh.Start(dh.Opts{Route: "c05", Addr: e.Addr, Pickle: pickle, Flush: flush, ConnBuf: connbuf, IoBuf: iobuf})
@@ -222,7 +225,7 @@ func TestPropHealthyConn(t *testing.T) {
 		}
 		nt := longer && shorter && (paused || time.Since(t0) > flush)
 		rec.Case(fmt.Sprintf("iobuf=%d connbuf=%d flush=%s pickle=%v n=%d lens=%v", iobuf, connbuf, flush, pickle, n, lens(handed)), nt,
-			fmt.Sprintf("pickle=%v", pickle), fmt.Sprintf("dropped>0=%v", missing > 0), fmt.Sprintf("iobuf=%d", iobuf), fmt.Sprintf("manual-flush-mid-stream=%v", flushes > 0))
+			fmt.Sprintf("pickle=%v", pickle), fmt.Sprintf("dropped>0=%v", missing > 0), fmt.Sprintf("iobuf=%d", iobuf), fmt.Sprintf("manual-flush-mid-stream=%v", flushes > 0), "log_level="+lvl)
 		rec.Num("lines_handed", int64(nHanded))
 		rec.Num("lines_dropped_slow_conn", int64(missing))
 	})
